@@ -1,2 +1,4 @@
 import Gonnx.Model
+import Gonnx.Theorems.C13
+import Gonnx.Theorems.C14
 import Gonnx.Theorems.C15
